@@ -423,6 +423,38 @@ func (r *rwRT) ruleFactory() {
 				map[bool]string{true: "a dot import is referred to by the bare name", false: "pkg.Name"}[pkgName == "."], fmt.Sprint(err))
 		}
 	}
+	// the switch factory puts initialiser, tag / guard and body where they belong, for the three forms
+	if sw := r.w.MethodOpt(pathRw, "factor", "Switch"); sw != nil {
+		c.fn(relName(sw))
+		for _, form := range []string{"tag-less", "tag", "type switch"} {
+			st := newState()
+			initN, bodyN := Dyn{T: r.astPtr("ExprStmt"), V: leafSym("sw.init")}, leafSym("sw.body")
+			var x AV = Nil{}
+			wantKind := "SwitchStmt"
+			fields := map[string]Pat{"Init": pVal{initN}, "Body": pVal{bodyN}}
+			switch form {
+			case "tag":
+				x = exprLeaf(r, "sw.tag")
+				fields["Tag"] = pLeaf{"sw.tag"}
+			case "type switch":
+				x = Dyn{T: r.astPtr("ExprStmt"), V: leafSym("sw.assign")}
+				wantKind = "TypeSwitchStmt"
+				fields["Assign"] = pVal{x}
+			default:
+				fields["Tag"] = pNil{}
+			}
+			in := r.interp(rwConfig{root: sw, inlineAll: true})
+			outs := in.Run(st, sw, []AV{StructV{}, initN, x, bodyN}, nil)
+			r.account(in)
+			var err error
+			if len(outs) != 1 || outs[0].Panicked || len(outs[0].Ret) != 1 {
+				err = fmt.Errorf("not a single normal path")
+			} else {
+				err = matchTmpl(outs[0].St, outs[0].Ret[0], ndOpen(wantKind, fields))
+			}
+			c.check(err == nil, "RW.FACTORY", "switch factory: "+form, r.w.FnPos(sw), "initialiser, tag / guard and body each in its own place", fmt.Sprint(err))
+		}
+	}
 	c.check(bad == "", "RW.FACTORY", "AST factory total on supported statements", pos,
 		fmt.Sprintf("%d abstract paths over all supported statement shapes (every optional part present/absent): no panic is raised inside the AST factory", paths), bad)
 }
